@@ -124,6 +124,9 @@ type c04Info struct {
 	Types     map[string]string
 	Positions []c04Pos
 	Kinds     map[string][]string // applicable fault kinds per path
+	// Consulted: "IT@path" / "RT@path" for every position at which the
+	// fault-free run consulted an IsTypeOf function / a type resolver
+	Consulted map[string]bool
 }
 
 var c04Cache = map[string]*c04Info{}
@@ -176,7 +179,17 @@ func c04Analyse(q string) *c04Info {
 	var base interface{}
 	b, _ := json.Marshal(res.Data)
 	json.Unmarshal(b, &base)
-	ci := &c04Info{Query: q, Root: root, Baseline: base, Types: rc.Types, Kinds: map[string][]string{}}
+	ci := &c04Info{Query: q, Root: root, Baseline: base, Types: rc.Types, Kinds: map[string][]string{}, Consulted: map[string]bool{}}
+	for _, l := range rc.Log {
+		switch {
+		case strings.HasPrefix(l, "RT:"):
+			ci.Consulted["RT@"+l[3:]] = true
+		case strings.HasPrefix(l, "IT:"):
+			if _, path, ok := strings.Cut(l[3:], "@"); ok {
+				ci.Consulted["IT@"+path] = true
+			}
+		}
+	}
 	for _, p := range SortedKeys(rc.Types) {
 		t := rc.Types[p]
 		ci.Positions = append(ci.Positions, c04Pos{p, t})
@@ -682,6 +695,23 @@ func (c04) Run(t TestingT, scn json.RawMessage, tape *Tape) *Outcome {
 	}
 	json.Unmarshal([]byte(raw), &dec)
 
+	// a single planned fault sits on a callback that the fault-free run of this
+	// request invoked at that position; up to there the two runs are the same
+	// run, so the callback must be consulted again (a guard that is skipped
+	// would otherwise go unnoticed: the model acts on fired faults only)
+	if len(sc.Faults) == 1 && len(firedAt) == 0 && !c04Generated[sc.Query] {
+		for k, f := range sc.Faults {
+			// (a position declared with a concrete object type that has an
+			// IsTypeOf function is guarded by it whatever is selected beneath:
+			// known from the world, not from the fault-free run)
+			_, fpath, _ := strings.Cut(k, "@")
+			ftyp := ci.typeOfPos(fpath)
+			guarded := strings.HasPrefix(k, "IT@") && ftyp != "" && !isListType(ftyp) && c04IsTypeNames[namedOf(ftyp)]
+			if ci.Consulted[k] || guarded {
+				o.Violate("C04/callback-not-consulted", "the only planned fault %s=%s did not fire: the type callback that the fault-free run consulted at that position was not consulted in this run\n got: %s", k, f, raw)
+			}
+		}
+	}
 	// ---- model: apply every fired fault to the baseline
 	want := deepCopy(ci.Baseline)
 	type failure struct {
